@@ -19,6 +19,7 @@ class DetectVarNames( ast.NodeVisitor ):
     self.obj = obj
     self.globals = upblk.__globals__
     self.closure = { *upblk.__code__.co_freevars }
+    self.locals  = { *upblk.__code__.co_varnames }
 
     if sys.version_info < (3,8,10000):
       self._get_full_name = self._get_full_name_up_to_py38
@@ -51,14 +52,16 @@ class DetectVarNames( ast.NodeVisitor ):
         low = node.slice.lower.n
       elif isinstance( lower, ast.Name ):
         x = lower.id
-        if   x in self.globals: low = (False, x)
+        if   x in self.locals:  pass # a local of the block (e.g. a loop variable) shadows globals
+        elif x in self.globals: low = (False, x)
         elif x in self.closure: low = (True, x)
 
       if isinstance( upper, ast.Num ):
         up = node.slice.upper.n
       elif isinstance( upper, ast.Name ):
         x = upper.id
-        if   x in self.globals: up = (False, x)
+        if   x in self.locals:  pass # a local of the block (e.g. a loop variable) shadows globals
+        elif x in self.globals: up = (False, x)
         elif x in self.closure: up = (True, x)
 
       if low is not None and up is not None:
@@ -82,7 +85,8 @@ class DetectVarNames( ast.NodeVisitor ):
           n = v.n
         elif isinstance( v, ast.Name ):
           x = v.id
-          if   x in self.globals: n = (False, x)
+          if   x in self.locals:  pass # a local of the block (e.g. a loop variable) shadows globals
+          elif x in self.globals: n = (False, x)
           elif x in self.closure: n = (True, x)
         elif isinstance( v, ast.Call ): # int(x)
           for x in v.args:
@@ -150,14 +154,16 @@ class DetectVarNames( ast.NodeVisitor ):
         low = node.slice.lower.n
       elif isinstance( lower, ast.Name ):
         x = lower.id
-        if   x in self.globals: low = (False, x)
+        if   x in self.locals:  pass # a local of the block (e.g. a loop variable) shadows globals
+        elif x in self.globals: low = (False, x)
         elif x in self.closure: low = (True, x)
 
       if isinstance( upper, ast.Num ):
         up = node.slice.upper.n
       elif isinstance( upper, ast.Name ):
         x = upper.id
-        if   x in self.globals: up = (False, x)
+        if   x in self.locals:  pass # a local of the block (e.g. a loop variable) shadows globals
+        elif x in self.globals: up = (False, x)
         elif x in self.closure: up = (True, x)
 
       if low is not None and up is not None:
@@ -181,7 +187,8 @@ class DetectVarNames( ast.NodeVisitor ):
           n = v.n
         elif isinstance( v, ast.Name ):
           x = v.id
-          if   x in self.globals: n = (False, x)
+          if   x in self.locals:  pass # a local of the block (e.g. a loop variable) shadows globals
+          elif x in self.globals: n = (False, x)
           elif x in self.closure: n = (True, x)
         elif isinstance( v, ast.Call ): # int(x)
           for x in v.args:
